@@ -320,7 +320,7 @@ func main() {
 		budget = 40 * time.Minute
 	}
 	r.SetBudget(budget)
-	caches := []uint64{0, 16 * 1024, 64 * 1024 * 1024}
+	caches := []uint64{0, 1000, 64 * 1024 * 1024} // 1000 bytes: fills up and flushes by itself every few blocks
 	maxNonDeliver := 3
 	if long {
 		maxNonDeliver = 4
